@@ -12,12 +12,14 @@ from . import grouporacles as GO
 PROP = "C06"
 
 
-def s1_group(src, nmembers, times, max_faults, assignors, join_versions):
+def s1_group(src, nmembers, times, max_faults, assignors, join_versions, by_api=False):
     cfg = {"member": {"auto_commit": True, "auto_commit_interval_ms": 150, "assignors": list(assignors),
                       "metadata_max_age_ms": 150},
-           "versions": {11: join_versions}, "extra_events": ("grow",), "vary_sync_delay": True}
+           "versions": {11: join_versions}, "extra_events": ("grow",), "vary_sync_delay": not by_api,
+           "vary_heartbeat_delay": max_faults == 0}
     scenario, plan = GO.standard_scenario(src, cfg, nmembers, times, quiet=5.5,  # > 2 x (session + rebalance timeout): crashed members are expired well before the last 1.5 s
-                                          fault_apis=(8, 10, 11, 12, 14), max_fault_requests=5, max_faults=max_faults)
+                                          fault_apis=(10, 11, 12, 14) if by_api else (8, 10, 11, 12, 14), max_fault_requests=5, max_faults=max_faults,
+                                          faults_by_api=by_api)
     res = groupsim.run_group(src, cfg, scenario)
     run = res["run"]
     src.note({"plan": GO._plan(run) if hasattr(run, "plan") else None})
@@ -30,16 +32,17 @@ def s1_group(src, nmembers, times, max_faults, assignors, join_versions):
 def harnesses(tier):
     q = tier == "quick"
     if q:
-        confs = [(2, [0.05, 0.3], 0, ("roundrobin",), (0, 2)), (1, [0.3], 1, ("range", "roundrobin"), (0, 5)),
-                 (2, [0.3], 1, ("roundrobin",), (0, 5))]
+        confs = [(2, [0.05, 0.3], 0, ("roundrobin",), (0, 2), False), (1, [0.3], 1, ("range", "roundrobin"), (0, 5), False),
+                 (2, [0.3], 1, ("roundrobin",), (0, 5), False), (2, [0.3], 1, ("roundrobin",), (0, 2), True)]
     else:
-        confs = [(2, [0.05, 0.2, 0.3, 0.62], 1, ("roundrobin",), (0, 2)), (2, [0.05, 0.3], 2, ("range", "roundrobin", "sticky"), (0, 5)),
-                 (3, [0.05, 0.3], 1, ("sticky", "range"), (0, 5)), (1, [0.3], 2, ("roundrobin",), (0, 0))]
+        confs = [(2, [0.05, 0.2, 0.3, 0.62], 1, ("roundrobin",), (0, 2), False), (2, [0.05, 0.3], 2, ("range", "roundrobin", "sticky"), (0, 5), False),
+                 (3, [0.05, 0.3], 1, ("sticky", "range"), (0, 5), False), (1, [0.3], 2, ("roundrobin",), (0, 0), False),
+                 (2, [0.05, 0.3], 1, ("roundrobin", "range"), (0, 5), True)]
     hs = []
-    for n, times, mf, asg, jv in confs:
+    for n, times, mf, asg, jv, by_api in confs:
         hs.append(Harness(
-            name=f"S1_group_{n}members_{len(times)}times_{mf}faults_{'_'.join(asg)}_join{jv[1]}", fn=s1_group,
-            params={"nmembers": n, "times": times, "max_faults": mf, "assignors": asg, "join_versions": jv},
+            name=f"S1_group_{n}members_{len(times)}times_{mf}faults_{'_'.join(asg)}_join{jv[1]}{'_nth_request' if by_api else ''}", fn=s1_group,
+            params={"nmembers": n, "times": times, "max_faults": mf, "assignors": asg, "join_versions": jv, "by_api": by_api},
             functions=[GroupCoordinator._coordination_routine if hasattr(GroupCoordinator, "_coordination_routine") else GroupCoordinator.ensure_active_group,
                        GroupCoordinator.ensure_active_group, GroupCoordinator.ensure_coordinator_known,
                        CoordinatorGroupRebalance.perform_group_join, CoordinatorGroupRebalance._send_sync_group_request,
